@@ -30,11 +30,34 @@ theorem C12_and_eq_zero_iff (x : BitVec 64) (h : 1 ≤ x.toNat) :
   rw [beq_iff_eq, ← BitVec.toNat_inj, BitVec.toNat_and, C12_toNat_sub_one x h]
   simp
 
+/-- the acceptance condition in canonical form -/
+def C12_canon (x : BitVec 64) : Bool := BitVec.sle (2#64) x && ((x &&& (x - 1#64)) == 0#64)
+
+theorem C12_slt_eq_not_sle (x y : BitVec 64) : BitVec.slt x y = !BitVec.sle y x := by
+  simp only [BitVec.slt, BitVec.sle]
+  by_cases h : x.toInt < y.toInt
+  · have : ¬ y.toInt ≤ x.toInt := by omega
+    simp [h, this]
+  · have : y.toInt ≤ x.toInt := by omega
+    simp [h, this]
+
+/-- whatever boolean combination of the two atoms `2 ≤ order` / `order < 2` and
+    `order & (order-1) == 0` / `!= 0` the source uses (the original `if ok { return nil }`, the
+    guard-clause form `if !ok { return err }`, De Morgan variants), the regenerated definition
+    equals the canonical one: decided by normalising the comparisons and a truth table -/
+theorem C12_gen_eq_canon (x : BitVec 64) : Generated.checkOrderGen x = C12_canon x := by
+  unfold Generated.checkOrderGen C12_canon
+  first
+    | rfl
+    | (simp only [C12_slt_eq_not_sle, bne]
+       cases BitVec.sle (2#64) x <;> cases ((x &&& (x - 1#64)) == 0#64) <;> rfl)
+
 /-- **C12 (validation).** `checkOrder(order) == nil` exactly for the powers of two
     `2^1 … 2^62` (the positive powers of two representable in a Go `int`). -/
 theorem C12_checkOrder (x : BitVec 64) :
     Generated.checkOrderGen x = true ↔ ∃ n : Nat, 1 ≤ n ∧ n ≤ 62 ∧ x = BitVec.ofNat 64 (2 ^ n) := by
-  unfold Generated.checkOrderGen
+  rw [C12_gen_eq_canon]
+  unfold C12_canon
   rw [Bool.and_eq_true, C12_sle_two_iff]
   constructor
   · rintro ⟨⟨h2, h63⟩, hand⟩
